@@ -49,6 +49,8 @@ def run(ctx, R, parts=('S', 'R', 'B')):
     rows[0]['state'] = None
     if 'S' in parts:
         check_rows(R, 'C11.S', p, outs, rows, state_of=state_of)
+        # the step returns for every section and cursor: a panicking path has no outcome and would escape the row comparison
+        no_panic_gaps(R, 'C11.S', ev, p)
     for out in outs:
         if solver.sat(list(out['pc']) + [T.cmp('Ge', o, n)]):
             st = state_of(out)
@@ -78,6 +80,8 @@ def run(ctx, R, parts=('S', 'R', 'B')):
             R.inst('C11.R', 'item-stays-inside-section', solver.entails(out['pc'], T.cmp('Le', o2, n)),
                    expected="offset' <= len(bytes)", found=T.short(o2), entry=p)
     R.floor('step outcomes', len(outs), 4)
+    if 'S' in parts:
+        overrides(ctx, R)
     if 'B' not in parts:
         return
     # C11.B constructors
@@ -112,3 +116,75 @@ def run(ctx, R, parts=('S', 'R', 'B')):
         owned = private_helpers_of(ctx, [p])
         extra = sorted(w for w in fw if w not in owned)
         R.inst('C11.B', 'fields-assigned-only-by-next', not extra, expected=str([p]), found=str(sorted(fw)), entry='v2::model::TypeLengthValues')
+
+
+# Iterator methods whose result is a function of the item sequence and that a base-case comparison can decide
+DECIDABLE_OVERRIDES = ('count', 'last')
+IGNORED_OVERRIDES = ('size_hint',)        # only a capacity hint: no item, order or termination depends on it
+
+
+def overrides(ctx, R, rule='C11.O'):
+    """Provided Iterator methods overridden for TypeLengthValues must agree with the walk that `next` defines.  Decided on the base cases whose
+    item sequence is at most one item long (empty remainder; 1 or 2 stray bytes; a declared value that overruns the section): the item
+    sequence is taken from the extracted summary of `next` itself and the override's summary must equal the provided method's value on it.
+    A necessary condition only (sections with two or more items are not compared); overrides outside DECIDABLE_OVERRIDES are listed, not judged."""
+    im = None
+    for i in ctx.fx.impls:
+        if i.get('trait_path') == 'std::iter::Iterator' and tys_strip(i.get('self', '')) == 'v2::model::TypeLengthValues':
+            im = i
+    if not R.require(im is not None, rule, 'impl Iterator for TypeLengthValues', 'impl not found'):
+        return
+    pn = ctx.method(TLVS, 'next', 'std::iter::Iterator')
+    names = [it['name'] for it in im['items'] if it['kind'] == 'AssocFn']
+    R.inst(rule, 'iterator-impl-methods', 'next' in names, expected='next (+ optional overrides)', found=str(names), entry=pn, nontrivial=False)
+    for it in im['items']:
+        if it['kind'] != 'AssocFn' or it['name'] == 'next':
+            continue
+        name, pm = it['name'], it['path']
+        if name in IGNORED_OVERRIDES:
+            R.inst(rule, 'override/%s/irrelevant-to-the-item-sequence' % name, True, expected='ignored', found='ignored', entry=pm, nontrivial=False)
+            continue
+        if name not in DECIDABLE_OVERRIDES or pm not in ctx.fx.fns:
+            R.inst(rule, 'override/%s/not-judged' % name, True, expected='-', found='override present; its agreement with next is not decided by this rule', entry=pm, nontrivial=False)
+            continue
+        s = P(ctx, pm, 0)
+        sn = P(ctx, pn, 0)
+        b, o = ('field', s, 'bytes'), ('field', s, 'offset')
+        n = T.mk_len(b)
+        rem = T.sub(n, o)
+        l = T.mk_be((T.mk_at(b, T.add(o, I(1))), T.mk_at(b, T.add(o, I(2)))))
+        classes = [('end', [T.eq0(rem)]), ('one-stray-byte', [T.eq0(T.sub(rem, I(1)))]), ('two-stray-bytes', [T.eq0(T.sub(rem, I(2)))]),
+                   ('overrun', [T.cmp('Ge', rem, I(3)), T.cmp('Lt', rem, T.add(I(3), l))])]
+        for cname, assume in classes:
+            # the item sequence of this class according to next's own summary (same state, expressed over next's parameter)
+            ren = {s: sn}
+            evn, nouts = ctx.entry(pn, assume=[T.rebuild(a, ren) for a in assume])
+            if not nouts or len(nouts) != 1:
+                continue                      # C11.S reports a next that does not decide this class with one outcome
+            first = T.rebuild(nouts[0]['ret'], {sn: s})
+            if match(first, NONE):
+                seq = []
+            elif match(first, SOME(ERR(ANY))):
+                seq = [T.adt_field(first, '0')]           # an error item ends the walk (C11.R)
+            else:
+                continue
+            exp = I(len(seq)) if name == 'count' else (SOME(seq[-1]) if seq else NONE)
+            try:
+                evm, mouts = ctx.entry(pm, assume=assume)
+            except Exception:
+                mouts = None
+            if not mouts:
+                continue
+            for mo in mouts:
+                r = mo['ret']
+                if T.has_opaque(r) or any(t[0] == 'mu' for t in T.subterms(r)):
+                    R.inst(rule, 'override/%s/%s/not-judged' % (name, cname), True, expected=exp, found='summary not closed-form', entry=pm, nontrivial=False)
+                    continue
+                ok = equal(r, exp) or match(r, exp) or (T.is_numeric(r) and T.is_numeric(exp) and solver.entails(mo['pc'], T.eq0(T.sub(r, exp))))
+                R.inst(rule, 'override/%s/%s' % (name, cname), ok, expected=exp, found=r, entry=pm,
+                       note=None if ok else 'next yields %s for this class; under %s' % ('no item' if not seq else T.short(seq[0]), pc_text(mo['pc'], 6)))
+
+
+def tys_strip(s):
+    import tys
+    return tys.strip_lifetimes(s).replace('<>', '')
